@@ -213,3 +213,63 @@ func VerifC16ProjectionNamesV1() {
 	}
 	nd.Reach("end")
 }
+
+// VerifC16StraddleV1: the SDK v1 twin of VerifC16Straddle.
+func VerifC16StraddleV1() {
+	c := vClient(false)
+	_, perr := c.PutItem(&dynamodb.PutItemInput{TableName: aws.String(vTbl), Item: vItem{"p": vS("k"), "a": vS("x")}})
+	nd.Assert(perr == nil, "setup-put")
+	extra := nd.Choice("with-the-straddling-placeholder", 2) == 1
+	var err error
+	var panicked bool
+	switch nd.Choice("request", 4) {
+	case 0:
+		vals := vItem{":p": vS("y")}
+		if extra {
+			vals[":pq"] = vS("z")
+		}
+		err, panicked = vCatch(func() error {
+			_, e := c.UpdateItem(&dynamodb.UpdateItemInput{TableName: aws.String(vTbl), Key: vItem{"p": vS("k")},
+				UpdateExpression: aws.String("SET b = :p"), ConditionExpression: aws.String("q <> :p"), ExpressionAttributeValues: vals})
+			return e
+		})
+	case 1:
+		vals := vItem{":p": vS("y")}
+		if extra {
+			vals[":ps"] = vS("z")
+		}
+		err, panicked = vCatch(func() error {
+			_, e := c.UpdateItem(&dynamodb.UpdateItemInput{TableName: aws.String(vTbl), Key: vItem{"p": vS("k")},
+				UpdateExpression: aws.String("set b = :p"), ConditionExpression: aws.String("a <> :p"), ExpressionAttributeValues: vals})
+			return e
+		})
+	case 2:
+		names := map[string]*string{"#n": aws.String("a")}
+		if extra {
+			names["#nq"] = aws.String("a")
+		}
+		err, panicked = vCatch(func() error {
+			_, e := c.Scan(&dynamodb.ScanInput{TableName: aws.String(vTbl), ProjectionExpression: aws.String("p, #n"), FilterExpression: aws.String("q <> :v"),
+				ExpressionAttributeNames: names, ExpressionAttributeValues: vItem{":v": vS("y")}})
+			return e
+		})
+	case 3:
+		vals := vItem{":k": vS("k"), ":f": vS("y")}
+		if extra {
+			vals[[]string{":ka", ":fp"}[nd.Choice("which-order", 2)]] = vS("z")
+		}
+		err, panicked = vCatch(func() error {
+			_, e := c.Query(&dynamodb.QueryInput{TableName: aws.String(vTbl), KeyConditionExpression: aws.String("p = :k"), FilterExpression: aws.String("a <> :f"),
+				ExpressionAttributeValues: vals})
+			return e
+		})
+	}
+	if extra {
+		nd.Reach("unused")
+		nd.Assert(err != nil || panicked, "C16v1-placeholder-straddling-two-expressions-is-unused")
+	} else {
+		nd.Reach("well-formed")
+		nd.Assert(err == nil && !panicked, "C16v1-request-with-two-expressions-accepted")
+	}
+	nd.Reach("end")
+}
